@@ -316,7 +316,7 @@ def rand_atom_hex(r):
     return bytes(r.getrandbits(8) for _ in range(n)).hex()
 
 
-PROFILES = ["general", "heapcap", "atomcap", "paircap", "ints", "gc", "f2", "substr", "misuse"]
+PROFILES = ["general", "heapcap", "atomcap", "paircap", "ints", "gc", "gccap", "f2", "substr", "misuse"]
 
 
 def gen_history(r, profile=None, length=None, allow_f2=True):
@@ -327,6 +327,7 @@ def gen_history(r, profile=None, length=None, allow_f2=True):
     limit = {"heapcap": r.choice([0, 1, 2, 3, 5, 8, 13, 20, 40, 100]),
              "f2": r.choice([4, 6, 10, 30, 1000]),
              "gc": r.choice([3000, 5000, 100000]),
+             "gccap": 4294967295,
              "misuse": r.choice([50, 4294967295, 4294967296])}.get(profile, r.choice([200, 5000, 1000000, 4294967295]))
     st = PyRef(limit)
     toks = []
@@ -354,6 +355,24 @@ def gen_history(r, profile=None, length=None, allow_f2=True):
                 return i
         return r.randrange(m)
 
+    if profile == "gccap":
+        # a GC roll-back at a cap: transparent checkpoint, >= 1 KiB of garbage, a fresh small heap atom that
+        # survives; the heap limit (or the atom count) is placed within the survivor's size of the cap, where
+        # the roll-back must still succeed because it only gives memory back
+        emit("t")
+        for _ in range(r.choice([1, 1, 2])):
+            emit("a," + bytes([r.getrandbits(8)] * r.choice([1100, 1100, 2500])).hex())
+        ln = r.choice([1, 2, 5, 31, 32, 47, 48])
+        emit("a," + bytes([0x81 + r.getrandbits(6)] * ln).hex())
+        keep = len(st.nodes) - 1
+        if r.random() < 0.7:
+            limit = st.nh + r.choice([0, 0, 1, ln - 1, ln, ln + 1, 2 * ln])
+            st.limit = limit
+        else:
+            room = MAX_ATOMS - st.na
+            emit("ga,%d" % (room - r.choice([0, 0, 1, 2])))
+        emit("mr,0,%d" % keep)
+        profile = "gc"
     is_atom = lambda t: t[0] == "a"
     weights = {
         "general": dict(a=10, s=3, u=2, i=2, n=3, m=1, p=8, b=8, c=6, ga=1, gp=1, k=2, t=2, r=2, rt=2, mr=2, read=10),
